@@ -715,6 +715,25 @@ def consume(ck):
             for c in q.find_calls(f.node, "self._consume"):
                 ck.ob("C11.consume-only-shrinker", f, c, f.qualname == B + "._finish_read", "_consume is called only by _finish_read")
     ck.floor("C11.consume-only-shrinker", n_w, 1, "shrinking sites")
+    # the close path never touches what was received: _read_buffer / _read_buffer_size are (re)bound only where a
+    # read starts or ends, never by close()/_signal_closed() (buffered bytes stay readable after a close, also after an error)
+    n_b = 0
+    for rel, cls in FAMILY:
+        for f in ck.repo.direct_methods(rel, cls):
+            for st in q.walk_body(f.node):
+                if not isinstance(st, (ast.Assign, ast.AnnAssign)):
+                    continue
+                ap = q.assigned_paths(st)
+                if not ({"self._read_buffer", "self._read_buffer_size"} & ap) or isinstance(as_aug(st), ast.AugAssign):
+                    continue
+                n_b += 1
+                if f.name in ("close", "_signal_closed", "_handle_events", "_handle_read", "_handle_write", "close_fd"):
+                    ck.ob("C11.buffer-writers", f, st, False, "the close / event path does not discard or replace received bytes (%s is re-bound here; data already buffered must stay available to later and until-close reads)" % sorted({"self._read_buffer", "self._read_buffer_size"} & ap))
+                elif f.name in ("__init__", "read_into", "_finish_read", "_read_to_buffer", "_consume"):
+                    ck.ob("C11.buffer-writers", f, st, True, "read buffer (re)bound where a read starts / ends")
+                else:
+                    raise AnalysisError("%s re-binds the read buffer state; not one of the functions known to start or end a read" % f.qualname)
+    ck.floor("C11.buffer-writers", n_b, 4, "assignments of the read buffer state")
 
 
 def _zero_only(t: str, p: bool, var: str) -> bool:
@@ -964,6 +983,7 @@ def run(ck):
     ck.rule("C11.user-buffer-restore", "_finish_read swaps the internal buffer back and re-measures it when leaving caller-buffer mode")
     ck.rule("C11.close-completes-reads", "close() - for any reason, clean or error - finishes a pending until-close read and checks any other pending read against the buffered data before closing the fd (buffered bytes that satisfy a pending read are delivered, not dropped)")
     ck.rule("C11.read-end-mode", "every function that ends a read (self._read_future = None) leaves caller-buffer mode, so the next read returns bytes from the internal buffer")
+    ck.rule("C11.buffer-writers", "the read buffer and its size are re-bound only where a read starts or ends (init, read_into, _finish_read), never on the close / event path")
     ck.rule("C11.consume-pair", "_consume: copy [:loc], then delete [:loc] and decrease the size by loc, together and once; empty only for loc == 0")
     ck.rule("C11.consume-only-shrinker", "_consume (called only by _finish_read) is the only code that removes bytes from the read buffer, besides read_into's hand-over")
     ck.rule("C11.fill-pair", "_read_to_buffer: appended bytes = first n of the chunk, size += n, n = read_from_fd's count; caller-buffer reads land at offset _read_buffer_size")
@@ -1102,6 +1122,7 @@ def _search_cache(overlap: bool):
 
 
 MUTANTS = [
+    ("seeded C11-adv6: _signal_closed empties the read buffer when the close carried an error", _in(B + "._signal_closed", lambda root: (root.body.extend(ast.parse("if self.error is not None and not self._user_read_buffer:\n    self._read_buffer = bytearray()\n    self._read_buffer_size = 0").body) or True)), "C11.buffer-writers"),
     ("seeded C11-adv4: close() completes a satisfiable pending read only for clean closes", _in(B + ".close", replace_expr(lambda n: isinstance(n, ast.Compare) and _src(n) == "self._read_future is not None", lambda n: parse_expr("self._read_future is not None and not exc_info"))), "C11.close-completes-reads"),
     ("seeded C11-adv1: search-position cache without the len(delimiter)-1 overlap", _search_cache(False), "C11.search-coverage"),
     ("regex search resumes at the old buffer size", _in(B + "._find_read_pos", replace_expr(lambda n: isinstance(n, ast.Call) and _src(n.func) == "self._read_regex.search", lambda n: ast.Call(func=n.func, args=n.args + [parse_expr("self._read_buffer_size - 1")], keywords=[]))), "C11.search-coverage"),
